@@ -60,7 +60,8 @@ func (c *LockCfg) OpString(op wx.Op) string {
 		return fmt.Sprintf("q%d.EntityAt(%d)", op.A, op.B)
 	case LkRemoveProbe:
 		return [...]string{"e := NewEntity(D); RemoveEntity(e) with a listener that calls every structural entry point", "e := NewEntity(D); Batch.RemoveEntities(All(D)) with a listener that calls every structural entry point",
-			"NewEntity(D); NewEntity(C); Batch.RemoveEntities(Any(D,C)) with a listener restricted to D that calls every structural entry point"}[op.A]
+			"NewEntity(D); NewEntity(C); Batch.RemoveEntities(Any(D,C)) with a listener restricted to D that calls every structural entry point",
+			"e := NewEntity(D); RemoveEntity(e) with a listener subscribed to ComponentRemoved and relation events only that calls every structural entry point"}[op.A]
 	}
 	return lkNames[op.K]
 }
@@ -191,7 +192,7 @@ func (r *LockRun) Enabled() []wx.Op {
 		ops = append(ops, wx.Op{K: LkToggle})
 		ops = append(ops, wx.Op{K: LkOpenBatch, A: 0}, wx.Op{K: LkOpenBatch, A: 1})
 		if r.probes < r.cfg.Probes {
-			ops = append(ops, wx.Op{K: LkRemoveProbe, A: 0}, wx.Op{K: LkRemoveProbe, A: 1}, wx.Op{K: LkRemoveProbe, A: 2})
+			ops = append(ops, wx.Op{K: LkRemoveProbe, A: 0}, wx.Op{K: LkRemoveProbe, A: 1}, wx.Op{K: LkRemoveProbe, A: 2}, wx.Op{K: LkRemoveProbe, A: 3})
 		}
 		if !r.regProbed {
 			ops = append(ops, wx.Op{K: LkRegisterProbe})
@@ -357,8 +358,12 @@ func (r *LockRun) Apply(op wx.Op) (res wx.Result) {
 				return r.fail("probe:not-removed", name+": second entity still alive")
 			}
 		} else {
+			if op.A == 3 {
+				// a listener that is not subscribed to EntityRemoved but is notified of the removal all the same (its components go)
+				probe.subs = event.ComponentRemoved | event.RelationChanged | event.TargetChanged
+			}
 			w.SetListener(probe)
-			if op.A == 0 {
+			if op.A == 0 || op.A == 3 {
 				w.RemoveEntity(e)
 			} else {
 				w.Batch().RemoveEntities(ecs.All(r.d))
@@ -481,13 +486,19 @@ func (r *LockRun) Apply(op wx.Op) (res wx.Result) {
 
 type probeListener struct {
 	r     *LockRun
+	subs  event.Subscription // 0 = everything
 	comps *ecs.Mask
 	calls int
 	err   string
 	sig   string
 }
 
-func (l *probeListener) Subscriptions() event.Subscription { return event.All }
+func (l *probeListener) Subscriptions() event.Subscription {
+	if l.subs != 0 {
+		return l.subs
+	}
+	return event.All
+}
 func (l *probeListener) Components() *ecs.Mask             { return l.comps }
 func (l *probeListener) Notify(w *ecs.World, e ecs.EntityEvent) {
 	if !e.Contains(event.EntityRemoved) {
